@@ -312,6 +312,7 @@ def run(chk, ctx):
     round3.drop_arm_acks_directly(chk, ctx)
     from . import round4, c08
     round4.orphan_entry_timer_paired(chk, ctx)
+    round4.failed_fanout_torn_down(chk, ctx)     # held events of a caught fan-out failure are never acknowledged
     c08.r4(chk, ctx)                         # 'no timer left behind': every completion path disarms the request's timer
     round3.timer_cleared_only_on_completion(chk, ctx)
     chk.assume("the broker redelivers unacknowledged messages (trusted)")
